@@ -86,7 +86,8 @@ PosSel(name, s, j, form) ==
 PseudoForms(s) == IF Wide(s) THEN {"bare", "unknown"} ELSE {"unknown"}
 StS(ph, name, s, j, form, pos) == [ph |-> ph, name |-> name, s |-> s, j |-> j, form |-> form, pos |-> pos]
 InitS == x = StS("root", "", 0, 0, "none", "none")
-PickNameSite == x.ph = "root" /\ \E n \in Names, s \in DOMAIN Sites : x' = StS("fn", n, s, 0, "none", "none")
+\* (#invoke does not look at titles: it stays in the first universe)
+PickNameSite == x.ph = "root" /\ \E n \in Names \ {"#invoke"}, s \in DOMAIN Sites : x' = StS("fn", n, s, 0, "none", "none")
 MakeCallS == x.ph = "fn" /\ (\/ \E j \in NsSel(x.name, x.s) : \E form \in FormSel(x.name, x.s, j) : \E pos \in PosSel(x.name, x.s, j, form) :
                                    x' = StS("call", x.name, x.s, j, form, pos)
                              \/ \E form \in PseudoForms(x.s), pos \in {"title", "arg"} : x' = StS("call", x.name, x.s, 0, form, pos))
